@@ -3,6 +3,7 @@ import TxV.Drv.Ctl
 import TxV.Drv.C13
 import TxV.Drv.Socks
 import TxV.Drv.C20
+import TxV.Drv.C15
 open TxV.Drv
 
 def main (args : List String) : IO UInt32 := do
@@ -13,5 +14,6 @@ def main (args : List String) : IO UInt32 := do
   | ["C13"] => loop stdin stdout () C13.step; return 0
   | ["Socks"] => loop stdin stdout (none : Option TxV.Socks.M) Socks.step; return 0
   | ["C20"] => loop stdin stdout ({} : C20.St2) C20.step; return 0
+  | ["C15"] => loop stdin stdout ({} : C15.St2) C15.step; return 0
   | ["Ctl"] => loop stdin stdout ({} : Ctl.St) Ctl.step; return 0
   | _ => IO.eprintln "usage: driver <property-id>"; return 2
